@@ -93,8 +93,8 @@ def run_case(case, ctx):
     names = ["edge_node_distances", "edge_face_distances", "edge_node_connectivity", "edge_face_connectivity"]
     for k in case["order"]:
         getattr(g, names[k])
-    en = np.asarray(g.edge_node_connectivity.values)
-    ef = np.asarray(g.edge_face_connectivity.values)
+    en = np.array(g.edge_node_connectivity.values, copy=True)  # copies: expectations must not see later in-place edits
+    ef = np.array(g.edge_face_connectivity.values, copy=True)
     n_edge = en.shape[0]
     xyz = meshgen.mesh_xyz(mesh)
     if winfo is not None:
@@ -206,6 +206,9 @@ def run_case(case, ctx):
     ctx.ev("distances_unchanged_by_gradient")
     efd2 = np.asarray(g.edge_face_distances.values, float)
     end2 = np.asarray(g.edge_node_distances.values, float)
+    if not np.array_equal(np.asarray(g.edge_face_connectivity.values), ef) or not np.array_equal(np.asarray(g.edge_node_connectivity.values), en):
+        bad("distances_unchanged_by_gradient", "connectivity-changed", "after difference() / gradient() the grid's edge_face_connectivity or edge_node_connectivity is no longer what it was", site + ":after-gradient")
+        return fails
     if not np.array_equal(efd2, efd) or not np.array_equal(end2, end):
         i = int(np.argmax(np.abs(efd2 - efd))) if not np.array_equal(efd2, efd) else int(np.argmax(np.abs(end2 - end)))
         bad("distances_unchanged_by_gradient", "changed", f"after gradient(): edge {i} (faces {ef[i].tolist()}) edge_face_distances {efd[i]!r} -> {efd2[i]!r}, edge_node_distances {end[i]!r} -> {end2[i]!r}", site + ":after-gradient")
